@@ -16,6 +16,14 @@ CLAIMS = {
          'by exhaustive evaluation inside Coq (bound stated).',
          'Partial: per-step advance inside execute_instruction, flag-setting of 16-bit encodings in IT blocks and the '
          'exception-entry/return handling of IT bits are not yet theorems.'),
+ 'C10': ('the bank table (LookUpRName = architectural banks) for every configuration/register/mode, aliasing iff same '
+         'architectural register, read-after-write, histories of writes by induction, current-mode access, PC read value, '
+         'SPSR banking.',
+         'Partial: the 32-bit range invariant over instruction execution is not yet a theorem.'),
+ 'C12': ('cpsr_write_by_instr = CPSRWriteByInstr for every value/mask/flag/configuration/state; consequences proved on '
+         'the spec: unprivileged code cannot alter A/I/F/M, T/J/IT only on exception return, no illegal mode installed, '
+         'NMFI, SCR.AW/FW.',
+         'Partial: SPSR writes, the return instructions, hints and coprocessor gating are not yet theorems.'),
  'C16': ('lookup, read, write, error cases, histories (induction over operation lists), shape invariant, byte frame and '
          'store/load proved for every device list, address, size and value.',
          'Device payloads are RAM only; bytearray/struct semantics are the Lib/Machine.v model.'),
